@@ -167,6 +167,29 @@ def s2_s5_line_walk(ck):
         adv = [e for e in p.effects if e[0] == "store" and e[1] == cur]
         ok_adv = len(adv) == 1 and any(is_call(x, APPLY) and x[2][1] == mv for x in walk(adv[0][2]))
         ck.req(ok_adv, "S5.advance", "next", nx.where(), "the iterator does not advance its current state to the successor of the yielded move")
+    # the walk ends only where there is nothing more to follow: at the depth limit, at a position without an entry, or when the stored
+    # move cannot be applied.  Any further reason to stop (e.g. the kind of the entry) can cut the line at the root and leave nothing
+    # to report although the root has an entry and a legal move.
+    nones = [p for p in paths if p.ret == ("agg", "core::option::Option::None", ())]
+    ck.floor("S2", len(nones), 2, "ending paths of the principal-line iterator")
+    for p in nones:
+        last = p.conds[-1] if p.conds else None
+        ok = False
+        why = "no condition"
+        if last is not None:
+            c, tk = last
+            why = "%s = %s" % (show(c)[:100], tk)
+            if c[0] == "bin" and c[1] in ("Gt", "Ge", "Lt", "Le") and any(x == ("field", SELF, "current_index") for x in (c[2], c[3])) and any(x == ("field", SELF, "max_depth") for x in (c[2], c[3])):
+                ok = True      # depth limit
+            elif c[0] == "discr" and is_call(c[1], ACCESS + "::find") and tk in (0, ("else", (1,))):
+                ok = True      # no entry for this position
+            elif c[0] == "discr" and any(is_call(x, APPLY) for x in walk(c)):
+                ok = True      # stored move not applicable
+            elif c[0] == "discr" and is_call(c[1], "Try>::branch"):
+                ok = True      # `?` on find / by_performing_move
+        ck.req(ok, "S2.walk_ends", "next@%s" % why[:40], nx.where(),
+               "the principal-line walk can stop for a reason other than the depth limit, a missing entry or an inapplicable move (%s): a root whose entry does not "
+               "satisfy it yields an empty line and the search ends without reporting" % why)
     # iter_moves wires hasher/state/tables
     im = ck.body(ACCESS + "::iter_moves", "S2")
     itb = TermBuilder(prog, im)
